@@ -47,6 +47,7 @@ TYPES: Dict[str, TypeInfo] = {
         TypeInfo("lit", "mode", "Literal['a', 'b']", ("literal", ["a", "b"]), "scalar"),
         TypeInfo("bnd", "lim", "NonNeg", ("bounded", "int", 0, None, None, None), "scalar"),
         TypeInfo("li", "nums", "List[int]", ("list", ("cls", "int"), _T), "list", "int", "num"),
+        TypeInfo("ls", "names", "List[str]", ("list", ("cls", "str"), _T), "list", "str", "name"),
         TypeInfo("dsi", "weights", "Dict[str, int]", ("dict", ("cls", "str"), ("cls", "int"), _T), "dict", "int", "weight"),
         TypeInfo("si", "marks", "Set[int]", ("set", ("cls", "int"), _T), "set", "int", "mark"),
         TypeInfo("ss", "flags", "Set[str]", ("set", ("cls", "str"), _T), "set", "str", "flag"),
@@ -691,6 +692,7 @@ TRANSFORMS_FOR = {
     "lit": ["same"],
     "bnd": ["inc"],
     "li": ["rev", "app9", "listcopy"],
+    "ls": ["rev", "listcopy"],
     "dsi": ["dictadd", "dictcopy"],
     "si": ["setadd9"],
     "ss": ["setaddz"],
@@ -746,7 +748,7 @@ class World:
 # ---------------------------------------------------------------------------
 
 SCALAR_TKS = ["int", "int2", "str", "float", "optint", "union", "lit", "bnd"]
-COLL_TKS = ["li", "dsi", "si", "ss", "lleaf", "dleaf", "lk", "dk", "kl", "ks"]
+COLL_TKS = ["li", "ls", "dsi", "si", "ss", "lleaf", "dleaf", "lk", "dk", "kl", "ks"]
 
 
 def random_default(tk, rng, allow_none=True):
@@ -773,7 +775,7 @@ def gen_attr(tk, rng, profile):
             a.preparer = "upper"
         if tk in ("li", "dsi", "si") and rng.random() < 0.3:
             a.item_preparer = "abs"
-        if tk == "ss" and rng.random() < 0.3:
+        if tk in ("ss", "ls") and rng.random() < 0.3:
             a.item_preparer = "upper"
     if profile.get("flags", True):
         if rng.random() < 0.1:
